@@ -212,56 +212,56 @@ Qed.
 Ltac inv_pair H := injection H as <- <-.
 
 Lemma sys_mkdir_inv c f p mode f' res : sys_mkdir c f p mode = (f', res) ->
-  (f' = f /\ res <> ROk) \/
+  (f' = f /\ exists e, res = RErr e) \/
   exists r, resolve c f p false = inl r /\ l_ino r = None /\ res = ROk /\
             f' = fst (create_at f r true (KDir (l_dir r) []) (N.land mode mkdir_mask)).
 Proof.
-  unfold sys_mkdir. destruct (resolve c f p false) as [r|e]; [|intros H; inv_pair H; left; split; [auto|discriminate]].
-  destruct (l_ino r) eqn:E; intros H; inv_pair H; [left; split; [auto|discriminate]|].
+  unfold sys_mkdir. destruct (resolve c f p false) as [r|e]; [|intros H; inv_pair H; left; split; [auto|eexists; reflexivity]].
+  destruct (l_ino r) eqn:E; intros H; inv_pair H; [left; split; [auto|eexists; reflexivity]|].
   right. exists r. repeat split; auto.
 Qed.
 
 Lemma sys_mknod_inv c f p typ mode rdev f' res : sys_mknod c f p typ mode rdev = (f', res) ->
-  (f' = f /\ res <> ROk) \/
+  (f' = f /\ exists e, res = RErr e) \/
   exists r a b, resolve c f p false = inl r /\ l_ino r = None /\ res = ROk /\
             f' = fst (create_at f r false (KSpecial a b) (N.land mode perm_mask)).
 Proof.
-  unfold sys_mknod. destruct (resolve c f p false) as [r|e]; [|intros H; inv_pair H; left; split; [auto|discriminate]].
-  destruct (l_ino r) eqn:E; intros H; inv_pair H; [left; split; [auto|discriminate]|].
+  unfold sys_mknod. destruct (resolve c f p false) as [r|e]; [|intros H; inv_pair H; left; split; [auto|eexists; reflexivity]].
+  destruct (l_ino r) eqn:E; intros H; inv_pair H; [left; split; [auto|eexists; reflexivity]|].
   right. eexists r, _, _. repeat split; eauto.
 Qed.
 
 Lemma sys_mknod_reg_inv c f p mode f' res : sys_mknod_reg c f p mode = (f', res) ->
-  (f' = f /\ res <> ROk) \/
+  (f' = f /\ exists e, res = RErr e) \/
   exists r, resolve c f p false = inl r /\ l_ino r = None /\ res = ROk /\
             f' = fst (create_at f r false (KFile []) (N.land mode perm_mask)).
 Proof.
-  unfold sys_mknod_reg. destruct (resolve c f p false) as [r|e]; [|intros H; inv_pair H; left; split; [auto|discriminate]].
-  destruct (l_ino r) eqn:E; intros H; inv_pair H; [left; split; [auto|discriminate]|].
+  unfold sys_mknod_reg. destruct (resolve c f p false) as [r|e]; [|intros H; inv_pair H; left; split; [auto|eexists; reflexivity]].
+  destruct (l_ino r) eqn:E; intros H; inv_pair H; [left; split; [auto|eexists; reflexivity]|].
   right. exists r. repeat split; auto.
 Qed.
 
 Lemma sys_symlink_inv c f t p f' res : sys_symlink c f t p = (f', res) ->
-  (f' = f /\ res <> ROk) \/
+  (f' = f /\ exists e, res = RErr e) \/
   exists r, resolve c f p false = inl r /\ l_ino r = None /\ res = ROk /\
             f' = fst (create_at f r false (KLink t) 511).
 Proof.
-  unfold sys_symlink. destruct t as [|t0 t1]; [intros H; inv_pair H; left; split; [auto|discriminate]|].
-  destruct (has_nul (t0 :: t1)); [intros H; inv_pair H; left; split; [auto|discriminate]|].
-  destruct (resolve c f p false) as [r|e]; [|intros H; inv_pair H; left; split; [auto|discriminate]].
-  destruct (l_ino r) eqn:E; intros H; inv_pair H; [left; split; [auto|discriminate]|].
+  unfold sys_symlink. destruct t as [|t0 t1]; [intros H; inv_pair H; left; split; [auto|eexists; reflexivity]|].
+  destruct (has_nul (t0 :: t1)); [intros H; inv_pair H; left; split; [auto|eexists; reflexivity]|].
+  destruct (resolve c f p false) as [r|e]; [|intros H; inv_pair H; left; split; [auto|eexists; reflexivity]].
+  destruct (l_ino r) eqn:E; intros H; inv_pair H; [left; split; [auto|eexists; reflexivity]|].
   right. exists r. repeat split; auto.
 Qed.
 
 Lemma sys_link_inv c f o p f' res : sys_link c f o p = (f', res) ->
-  (f' = f /\ res <> ROk) \/
+  (f' = f /\ exists e, res = RErr e) \/
   exists i r, resolve_ino c f o false = inl i /\ resolve c f p false = inl r /\ l_ino r = None /\
               is_dir f i = false /\ res = ROk /\ f' = add_ent f (l_dir r) (l_name r) i.
 Proof.
-  unfold sys_link. destruct (resolve_ino c f o false) as [i|e]; [|intros H; inv_pair H; left; split; [auto|discriminate]].
-  destruct (resolve c f p false) as [r|e]; [|intros H; inv_pair H; left; split; [auto|discriminate]].
-  destruct (l_ino r) eqn:E; [intros H; inv_pair H; left; split; [auto|discriminate]|].
-  destruct (is_dir f i) eqn:Ed; intros H; inv_pair H; [left; split; [auto|discriminate]|].
+  unfold sys_link. destruct (resolve_ino c f o false) as [i|e]; [|intros H; inv_pair H; left; split; [auto|eexists; reflexivity]].
+  destruct (resolve c f p false) as [r|e]; [|intros H; inv_pair H; left; split; [auto|eexists; reflexivity]].
+  destruct (l_ino r) eqn:E; [intros H; inv_pair H; left; split; [auto|eexists; reflexivity]|].
+  destruct (is_dir f i) eqn:Ed; intros H; inv_pair H; [left; split; [auto|eexists; reflexivity]|].
   right. exists i, r. repeat split; auto.
 Qed.
 
@@ -283,26 +283,26 @@ Proof.
 Qed.
 
 Lemma sys_unlink_inv c f p f' res : sys_unlink c f p = (f', res) ->
-  (f' = f /\ res <> ROk) \/
+  (f' = f /\ exists e, res = RErr e) \/
   exists r i, resolve c f p false = inl r /\ l_ino r = Some i /\ is_dir f i = false /\ res = ROk /\
               f' = del_ent f (l_dir r) (l_name r).
 Proof.
-  unfold sys_unlink. destruct (resolve c f p false) as [r|e]; [|intros H; inv_pair H; left; split; [auto|discriminate]].
-  destruct (l_ino r) as [i|] eqn:E; [|intros H; inv_pair H; left; split; [auto|discriminate]].
-  destruct (is_dir f i) eqn:Ed; intros H; inv_pair H; [left; split; [auto|discriminate]|].
+  unfold sys_unlink. destruct (resolve c f p false) as [r|e]; [|intros H; inv_pair H; left; split; [auto|eexists; reflexivity]].
+  destruct (l_ino r) as [i|] eqn:E; [|intros H; inv_pair H; left; split; [auto|eexists; reflexivity]].
+  destruct (is_dir f i) eqn:Ed; intros H; inv_pair H; [left; split; [auto|eexists; reflexivity]|].
   right. exists r, i. repeat split; auto.
 Qed.
 
 Lemma sys_rmdir_inv c f p f' res : sys_rmdir c f p = (f', res) ->
-  (f' = f /\ res <> ROk) \/
+  (f' = f /\ exists e, res = RErr e) \/
   exists r i, resolve c f p false = inl r /\ l_ino r = Some i /\ l_name r <> [] /\ res = ROk /\
               f' = del_ent f (l_dir r) (l_name r).
 Proof.
-  unfold sys_rmdir. destruct (resolve c f p false) as [r|e]; [|intros H; inv_pair H; left; split; [auto|discriminate]].
-  destruct (l_ino r) as [i|] eqn:E; [|intros H; inv_pair H; left; split; [auto|discriminate]].
-  destruct (dir_of f i) as [[pp es]|]; [|intros H; inv_pair H; left; split; [auto|discriminate]].
-  destruct (l_name r) eqn:En; simpl; [intros H; inv_pair H; left; split; [auto|discriminate]|].
-  destruct (is_nil es); intros H; inv_pair H; [|left; split; [auto|discriminate]].
+  unfold sys_rmdir. destruct (resolve c f p false) as [r|e]; [|intros H; inv_pair H; left; split; [auto|eexists; reflexivity]].
+  destruct (l_ino r) as [i|] eqn:E; [|intros H; inv_pair H; left; split; [auto|eexists; reflexivity]].
+  destruct (dir_of f i) as [[pp es]|]; [|intros H; inv_pair H; left; split; [auto|eexists; reflexivity]].
+  destruct (l_name r) eqn:En; simpl; [intros H; inv_pair H; left; split; [auto|eexists; reflexivity]|].
+  destruct (is_nil es); intros H; inv_pair H; [|left; split; [auto|eexists; reflexivity]].
   right. exists r, i. rewrite En. repeat split; auto. discriminate.
 Qed.
 
@@ -321,40 +321,40 @@ Proof.
 Qed.
 
 Lemma sys_chmod_inv c f p mode f' res : sys_chmod c f p mode = (f', res) ->
-  (f' = f /\ res <> ROk) \/
+  (f' = f /\ exists e, res = RErr e) \/
   exists i n m, resolve_ino c f p true = inl i /\ get f i = Some n /\ res = ROk /\ f' = put f i (set_meta n m).
 Proof.
-  unfold sys_chmod. destruct (resolve_ino c f p true) as [i|e]; [|intros H; inv_pair H; left; split; [auto|discriminate]].
-  destruct (get f i) as [n|] eqn:E; intros H; inv_pair H; [|left; split; [auto|discriminate]].
+  unfold sys_chmod. destruct (resolve_ino c f p true) as [i|e]; [|intros H; inv_pair H; left; split; [auto|eexists; reflexivity]].
+  destruct (get f i) as [n|] eqn:E; intros H; inv_pair H; [|left; split; [auto|eexists; reflexivity]].
   right. eexists i, n, _. eauto.
 Qed.
 
 Lemma sys_lchown_inv c f p u g f' res : sys_lchown c f p u g = (f', res) ->
-  (f' = f /\ res <> ROk) \/
+  (f' = f /\ exists e, res = RErr e) \/
   exists i n m, resolve_ino c f p false = inl i /\ get f i = Some n /\ res = ROk /\ f' = put f i (set_meta n m).
 Proof.
-  unfold sys_lchown. destruct (resolve_ino c f p false) as [i|e]; [|intros H; inv_pair H; left; split; [auto|discriminate]].
-  destruct (get f i) as [n|] eqn:E; intros H; inv_pair H; [|left; split; [auto|discriminate]].
+  unfold sys_lchown. destruct (resolve_ino c f p false) as [i|e]; [|intros H; inv_pair H; left; split; [auto|eexists; reflexivity]].
+  destruct (get f i) as [n|] eqn:E; intros H; inv_pair H; [|left; split; [auto|eexists; reflexivity]].
   right. eexists i, n, _. eauto.
 Qed.
 
 Lemma sys_utimens_inv c f p t f' res : sys_utimens c f p t = (f', res) ->
-  (f' = f /\ res <> ROk) \/
+  (f' = f /\ exists e, res = RErr e) \/
   exists i n m, resolve_ino c f p false = inl i /\ get f i = Some n /\ res = ROk /\ f' = put f i (set_meta n m).
 Proof.
-  unfold sys_utimens. destruct (resolve_ino c f p false) as [i|e]; [|intros H; inv_pair H; left; split; [auto|discriminate]].
-  destruct (get f i) as [n|] eqn:E; intros H; inv_pair H; [|left; split; [auto|discriminate]].
+  unfold sys_utimens. destruct (resolve_ino c f p false) as [i|e]; [|intros H; inv_pair H; left; split; [auto|eexists; reflexivity]].
+  destruct (get f i) as [n|] eqn:E; intros H; inv_pair H; [|left; split; [auto|eexists; reflexivity]].
   right. eexists i, n, _. eauto.
 Qed.
 
 Lemma sys_lsetxattr_inv c f p k v f' res : sys_lsetxattr c f p k v = (f', res) ->
-  (f' = f /\ res <> ROk) \/
+  (f' = f /\ exists e, res = RErr e) \/
   exists i n m, resolve_ino c f p false = inl i /\ get f i = Some n /\ res = ROk /\ f' = put f i (set_meta n m).
 Proof.
-  unfold sys_lsetxattr. destruct (resolve_ino c f p false) as [i|e]; [|intros H; inv_pair H; left; split; [auto|discriminate]].
-  destruct (get f i) as [n|] eqn:E; [|intros H; inv_pair H; left; split; [auto|discriminate]].
-  destruct (negb (has_prefix pfx_user k) && negb (has_prefix pfx_trusted k)); [intros H; inv_pair H; left; split; [auto|discriminate]|].
-  destruct (has_prefix pfx_user k && _); intros H; inv_pair H; [left; split; [auto|discriminate]|].
+  unfold sys_lsetxattr. destruct (resolve_ino c f p false) as [i|e]; [|intros H; inv_pair H; left; split; [auto|eexists; reflexivity]].
+  destruct (get f i) as [n|] eqn:E; [|intros H; inv_pair H; left; split; [auto|eexists; reflexivity]].
+  destruct (negb (has_prefix pfx_user k) && negb (has_prefix pfx_trusted k)); [intros H; inv_pair H; left; split; [auto|eexists; reflexivity]|].
+  destruct (has_prefix pfx_user k && _); intros H; inv_pair H; [left; split; [auto|eexists; reflexivity]|].
   right. eexists i, n, _. eauto.
 Qed.
 
